@@ -80,6 +80,14 @@ def grad_value(pidx, t, shape, seed, kind="table"):
         g = np.zeros(n)
         g[(pidx + seed) % n] = TABLE[(pidx + seed) % 8]
         return g.reshape(shape)
+    if kind == "twohot":
+        # exactly two non-zero entries at every step: the factor of a 1-D block is sparse (a dense 2x2 block, as many
+        # non-zeros as a diagonal would have) but not diagonal
+        g = np.zeros(n)
+        g[0] = TABLE[(pidx + 3 * t + seed) % 8]
+        if n > 1:
+            g[1] = TABLE[(pidx + 5 * t + 2 + seed) % 8]
+        return g.reshape(shape)
     i = np.arange(n)
     return TABLE[(5 * pidx + 3 * t + 7 * i + ((i + 1) * (t + 2)) // 2 + (i * pidx) // 2 + seed) % 8].reshape(shape)
 
